@@ -23,12 +23,12 @@ import (
 	"math/rand"
 	"net"
 	"os"
+	"reflect"
 	"regexp"
 	"runtime"
 	"strconv"
 	"strings"
 	"sync"
-	"sync/atomic"
 	"testing"
 	"time"
 
@@ -58,6 +58,7 @@ type plJob struct {
 	Poison     []int        `json:"poison"`      // what a recycled buffer holds behind the datagram just read: repeated well-formed sets / records
 	Free       bool         `json:"free"`        // no gates: the workers run in parallel as in the collector (used under the race detector)
 	Neighbour  *plNeighbour `json:"neighbour"`   // another protocol of the same collector, with its own max-udp-size, at work before this one
+	CountBase  uint64       `json:"count_base"`  // what the decoded counter stands at when the run begins
 	Verbose    bool         `json:"verbose"`     // the collector runs with -verbose
 	Backlog    bool         `json:"backlog"`     // the receive loop is ahead: the datagram queue is full and the loop is blocked handing the next one over
 	MirrorLate bool         `json:"mirror_late"` // mirroring is enabled only after the templates have been processed
@@ -153,6 +154,7 @@ type plProto struct {
 	qlen    func() int
 	mq      chan []byte
 	start   func(quit chan struct{})
+	setdec  func(uint64) // a collector that has been counting for a long time
 	decoded func() uint64
 	alone   func(tpls []plDgram, d plDgram) []byte
 	class   func(tpls []plDgram, d plDgram) string
@@ -190,7 +192,8 @@ func plAdapter(proto string, size int) plProto {
 				}
 				return
 			},
-			decoded: func() uint64 { return atomic.LoadUint64(&i.stats.DecodedCount) },
+			decoded: func() uint64 { return plCounter(&i.stats, "DecodedCount", nil) },
+			setdec:  func(v uint64) { plCounter(&i.stats, "DecodedCount", &v) },
 			class: func(tpls []plDgram, d plDgram) string {
 				c := ipfix.GetCache("")
 				for _, t := range tpls {
@@ -225,7 +228,8 @@ func plAdapter(proto string, size int) plProto {
 			send:    func(r *net.UDPAddr, b []byte) { netflowV9UDPCh <- NetflowV9UDPMsg{r, b} },
 			qlen:    func() int { return len(netflowV9UDPCh) },
 			start:   func(q chan struct{}) { go i.netflowV9Worker(q) },
-			decoded: func() uint64 { return atomic.LoadUint64(&i.stats.DecodedCount) },
+			decoded: func() uint64 { return plCounter(&i.stats, "DecodedCount", nil) },
+			setdec:  func(v uint64) { plCounter(&i.stats, "DecodedCount", &v) },
 			class: func(tpls []plDgram, d plDgram) string {
 				c := netflow9.GetCache("")
 				for _, t := range tpls {
@@ -260,7 +264,8 @@ func plAdapter(proto string, size int) plProto {
 			send:    func(r *net.UDPAddr, b []byte) { netflowV5UDPCh <- NetflowV5UDPMsg{r, b} },
 			qlen:    func() int { return len(netflowV5UDPCh) },
 			start:   func(q chan struct{}) { go i.netflowV5Worker(q) },
-			decoded: func() uint64 { return atomic.LoadUint64(&i.stats.DecodedCount) },
+			decoded: func() uint64 { return plCounter(&i.stats, "DecodedCount", nil) },
+			setdec:  func(v uint64) { plCounter(&i.stats, "DecodedCount", &v) },
 			class: func(tpls []plDgram, d plDgram) string {
 				m, err := netflow5.NewDecoder(plBytes(d.Exp), plBytes(d.Buf)).Decode()
 				return plClass(m == nil, err)
@@ -304,7 +309,8 @@ func plAdapter(proto string, size int) plProto {
 				return
 			},
 			start:   func(q chan struct{}) { go s.sFlowWorker(q) },
-			decoded: func() uint64 { return atomic.LoadUint64(&s.stats.DecodedCount) },
+			decoded: func() uint64 { return plCounter(&s.stats, "DecodedCount", nil) },
+			setdec:  func(v uint64) { plCounter(&s.stats, "DecodedCount", &v) },
 			class: func(tpls []plDgram, d plDgram) string {
 				dec := sflow.NewSFDecoder(bytes.NewReader(plBytes(d.Buf)), append([]uint32{}, opts.SFlowTypeFilter...))
 				dg, err := dec.SFDecode()
@@ -331,6 +337,21 @@ func plAdapter(proto string, size int) plProto {
 	}
 }
 
+// plCounter reads (set == nil) or sets a counter of a protocol's statistics by name, whatever unsigned width it has: the
+// workers are parked or idle when the driver looks
+func plCounter(stats interface{}, name string, set *uint64) uint64 {
+	f := reflect.ValueOf(stats).Elem().FieldByName(name)
+	if set != nil {
+		if f.OverflowUint(*set) {
+			f.SetUint(*set & (1<<uint(f.Type().Bits()) - 1))
+		} else {
+			f.SetUint(*set)
+		}
+		return *set
+	}
+	return f.Uint()
+}
+
 func plClass(rejected bool, err error) string {
 	if rejected {
 		return "no"
@@ -349,6 +370,16 @@ func plRun(job plJob) (res plResult) {
 	mCache = ipfix.GetCache("")
 	mCacheNF9 = netflow9.GetCache("")
 	ad := plAdapter(job.Proto, job.UDPSize)
+	if job.CountBase > 0 && ad.setdec != nil {
+		ad.setdec(job.CountBase)
+	}
+	// what the counter has moved by since the run began (-1: it stands below where it began)
+	moved := func() uint64 {
+		if d := ad.decoded(); d >= job.CountBase {
+			return d - job.CountBase
+		}
+		return 1<<31 - 1
+	}
 	rng := rand.New(rand.NewSource(job.Seed))
 
 	// buffers: identity by backing array
@@ -709,7 +740,7 @@ func plRun(job plJob) (res plResult) {
 						// path (the comparison of the observations says where)
 						obs = append(obs, plObs{Gates: []string{"not parked at a hook"}})
 						res.SchedObs = append(res.SchedObs, obs)
-						res.Decoded = ad.decoded()
+						res.Decoded = moved()
 						return
 					}
 					release(w)
@@ -735,7 +766,7 @@ func plRun(job plJob) (res plResult) {
 			res.SchedObs = append(res.SchedObs, obs)
 			ev(plEvent{Ev: "Reset"})
 		}
-		res.Decoded = ad.decoded()
+		res.Decoded = moved()
 		return
 	}
 	// phase 2: data, interleaved
@@ -847,7 +878,7 @@ func plRun(job plJob) (res plResult) {
 	}
 	for consume() {
 	}
-	res.Decoded = ad.decoded()
+	res.Decoded = moved()
 	ev(plEvent{Ev: "End", N: int(res.Decoded)})
 	return
 }
